@@ -77,13 +77,10 @@ class Service:
         self.sse_module_loader = None
         self.edb = None
 
-        if FileManager.check_sid_folder_exist(sid):
-            self.config = FileManager.read_service_config(sid)
-            self.service_meta = FileManager.read_service_meta(sid)
-            self._load_sse_module()
-            self._load_config_object()
-        else:  # NEW Service
-            self.service_meta = {"state": SERVICE_STATE.NOT_EXISTS}
+        # set once this connection has been served and closed; a later connection for the same sid waits for it
+        self._finished = asyncio.Event()
+
+        self.reload_state()
 
         self.recv_msg_handler = {
             MsgType.CONFIG: self.handle_upload_config,
@@ -101,6 +98,19 @@ class Service:
     @property
     def short_sid(self) -> str:
         return shorten_sid(self.sid)
+
+    def reload_state(self):
+        """(Re)load the durable state of the service from disk.
+        Called at construction and again when the connection becomes the active one after waiting for a previous
+        connection, which may have changed the durable state in the meantime.
+        """
+        if FileManager.check_sid_folder_exist(self.sid):
+            self.config = FileManager.read_service_config(self.sid)
+            self.service_meta = FileManager.read_service_meta(self.sid)
+            self._load_sse_module()
+            self._load_config_object()
+        else:  # NEW Service
+            self.service_meta = {"state": SERVICE_STATE.NOT_EXISTS}
 
     async def start(self):
         await self._recv_message()
@@ -247,3 +257,9 @@ class Service:
 
     async def wait_closed(self):
         await self.websocket.wait_closed()
+
+    def set_finished(self):
+        self._finished.set()
+
+    async def wait_finished(self):
+        await self._finished.wait()
